@@ -99,9 +99,9 @@ CHECKS = {
         design="5/C13",
     ),
     "C14": dict(
-        technique="exception-type monitor + logical step budget (sys.monitoring PY_START/JUMP/BRANCH counter) + global-state snapshot and fixed-reference-input re-check, over exhaustive single-character mutations/prefixes, near-valid deep-path files and random text",
+        technique="exception-type monitor + logical step budget (sys.monitoring PY_START/JUMP/BRANCH counter) + per-call user-CPU-time bound (ITIMER_VIRTUAL, for loops inside C code) + global-state snapshot and fixed-reference-input re-check (returned objects are modified in between), over exhaustive single-character mutations/prefixes, near-valid deep-path files and random text",
         text="Every parsing entry point (BF3 reader stream/path/MAC off, BEC2 reader with 7 decryptor sets, BF2 importer in both modes, identifier parser, filter formatter) is driven with all prefixes and all single-character deletions/replacements of valid files, line swaps/duplications, token insertions, multi-mutations, 30 classes of near-valid files with MACs and frames recomputed, and random text/hex (~2.6e5 calls quick). Any exception other than FormatError/ValueError subclasses, exceeding the step budget, a changed global snapshot or a changed result for fixed reference inputs is a violation.",
-        note="'never hangs' is decided by a logical step budget (3e6 + 3e4 x input length), not wall-clock; wall-clock watchdog yields inconclusive only.",
+        note="'never hangs' is decided by a logical step budget (3e6 + 3e4 x input length) and a user-CPU-time bound per call (20 s + 2 ms/char; counts only time the process executes, so load does not move it), never by wall-clock; the wall-clock watchdog yields inconclusive only.",
         design="5/C14",
     ),
     "C17": dict(
@@ -126,7 +126,7 @@ CHECKS = {
         category="model_checking",
         technique="controlled-schedule monitors on the real code: sys.monitoring LINE-event preemption harness for shared points (A parked at each line, B runs a whole operation, results compared with sequential runs); stateless depth-first schedule enumeration with visited-state pruning of the real RWLock under a scheduler that owns every Lock operation; random line-granularity schedules; uncontrolled stress",
         text="Points: for fresh generator objects (empty lazy table) and unscaled public points on SECP112r1/SECP128r1 (+NIST192p/256p thorough), thread A is parked at the LINE events of _maybe_precompute/scale/__mul__/mul_add/to_affine/... while thread B performs k*G, mul_add, signature verification, scale, to_affine, equality or a pickle round trip on the same object; both results and the object left behind must equal the sequential results. Lock: the real RWLock runs with a fake threading namespace; every interleaving of lock operations of 1R+1W, 2R, 2R+1W, 1R+2W, 1R+1W x2 (quick) and 2R+2W, 3R+1W, 3R+2W, x2 variants (thorough) is enumerated (state = thread progress, pending ops, lock owners, holder set, both switch counters read back from the object); the holder-set invariant is evaluated at every critical-section entry, deadlock = no enabled thread, two readers must be seen holding together, and everything must be released at the end.",
-        note="Bounded thread counts; source-line / lock-operation granularity; every explored execution is a run of the real code (traces_validated_against_impl = executions).",
+        note="Bounded thread counts; source-line / lock-operation granularity; every explored execution is a run of the real code (traces_validated_against_impl = executions). Locks the lock object reaches that were not created during its construction (class attributes, module globals) are adopted as controlled locks, one per distinct real lock.",
         design="5/C20",
     ),
 }
